@@ -31,6 +31,7 @@ func c04(c *Ctx) {
 	legacySuffixRule(c, "C04", []string{"mac/hmac", "mac/aescmac", "mac"}, map[string]bool{"ComputeMAC": true, "VerifyMAC": true})
 	c04Trunc(c)
 	c04CBCChain(c)
+	hmacKeyRaw(c, "C04.keyraw", "internal/mac/hmac", "mac/subtle", "mac/hmac")
 }
 
 func c04Recompute(c *Ctx) {
